@@ -54,7 +54,7 @@ Proof.
   assert (YS : ystart Fixed a b == ya + yb).
   { unfold a, b. simpl. replace (Qle_bool xa xb) with true by (symmetry; apply b_le; lra).
     replace (Qle_bool xb xa) with true by (symmetry; apply b_le; lra). reflexivity. }
-  unfold add_depth, sum_slopes. set (ys := ystart Fixed a b) in *.
+  change (add_depth Fixed a b) with (add_depth_core Fixed a b). unfold add_depth_core, sum_slopes. set (ys := ystart Fixed a b) in *.
   set (pa := pos_to_slope a). set (pb := pos_to_slope b).
   destruct (merge_some (length pa + length pb) pa pb 0 0 (le_n _)) as [s E]. rewrite E. simpl option_map.
   exists (slope_to_pos ys s). split; [reflexivity|].
